@@ -300,7 +300,11 @@ pub const SHARDS: usize = 16;
 
 pub fn run(ctx: &Ctx) -> Report {
     if ctx.shard.is_none() {
-        return run_sharded(ctx, SHARDS, SHARDS);
+        let mut rep = run_sharded(ctx, SHARDS, SHARDS);
+        if ctx.tier == Tier::Thorough {
+            super::fuzzplay::campaign(ctx, "C02", &mut rep);
+        }
+        return rep;
     }
     let mut rep = Report::new();
     let corp = corpus::load(&ctx.verif);
@@ -319,7 +323,7 @@ pub fn run(ctx: &Ctx) -> Report {
             }
         }
     }
-    let cases = ctx.tier.pick(32_000, 800_000) / ctx.shard_count() as u32;
+    let cases = ctx.tier.pick(32_000, 200_000) / ctx.shard_count() as u32;
     let max_len = ctx.tier.pick(90, 160);
     run_prop(ctx, "c02-ops", cases, 3000, ops_strategy(max_len), &mut rep, |case, rep| {
         let Some((start_fen, script, label)) = script_of(case, &corp) else {
